@@ -3,7 +3,7 @@
 import json, os
 V = '/verif'
 res = json.load(open(os.path.join(V, 'seeded', 'RESULTS.json')))
-print('| seeded change | property | what it changes | result of `vcheck <property> --tier quick` on the changed tree | first violated obligation |')
+print('| seeded change | property | what it changes | result of `vcheck <property> --tier <tier>` on the changed tree | first violated obligation |')
 print('|---|---|---|---|---|')
 for name in sorted(res):
     r = res[name]
@@ -12,7 +12,7 @@ for name in sorted(res):
     summ = summ[:230] + ('…' if len(summ) > 230 else '')
     fv = (r.get('first_violation') or [''])[0].replace('violation: ', '').replace('|', '/')
     fv = fv.split(':')[0][:150]
-    print('| %s | %s | %s | %s (exit %s, %ss) | %s |' % (name, r['property'], summ, r['status'], r.get('check_exit'), r.get('wall_s'), fv))
+    print('| %s | %s | %s | %s (%s tier, exit %s, %ss) | %s |' % (name, r['property'], summ, r['status'], r.get('tier', 'quick'), r.get('check_exit'), r.get('wall_s'), fv))
 rv = os.path.join(V, 'seeded', 'REVERTS.json')
 if os.path.exists(rv):
     print()
